@@ -261,10 +261,8 @@ def rule_L5(ctx: Ctx) -> None:
     ctx.judge(t, ok, {"returns": X.U(r[0].value) if r else None}, "a coordinate string is parsed as the comma-separated integers between the parentheses, in order")
     sc = ctx.index.func(f"{TU}.strings_to_coords")
     loop = [n for n in sc.node.body if isinstance(n, ast.For)]
-    ok = len(loop) == 1 and X.U(loop[0].iter) == "tokens_processed" and "coord_str_to_tuple_noneable(token)" in X.U(loop[0])
-    tp = X.assignments_to(sc.node, "tokens_processed")
-    tj = X.assignments_to(sc.node, "tokens_joined")
-    ok = ok and len(tp) == 1 and X.same_expr(tp[0], "coords_string_split_UT(tokens_joined)") and len(tj) == 1 and X.same_expr(tj[0], "text if isinstance(text, str) else ' '.join(text)")
+    ok = len(loop) == 1 and isinstance(loop[0].target, ast.Name) and f"coord_str_to_tuple_noneable({X.U(loop[0].target)})" in X.U(loop[0]) \
+        and X.same_expr_x(loop[0].iter, sc.node, "coords_string_split_UT(text if isinstance(text, str) else ' '.join(text))")
     ctx.judge(sc, ok, {}, "strings_to_coords joins a token list with single spaces, re-splits it with the UT splitter and converts each piece, in order (so list and string inputs parse alike)")
     for fn_name, loopvar, conv in (("coords_to_strings", "coord", "result.extend(coord_to_strings_func(coord))"), ("strings_to_coords", "token", "result.append(coord)")):
         fn = ctx.index.func(f"{TU}.{fn_name}")
